@@ -130,6 +130,7 @@ macro_rules! by_ty5 {
             "s" => $f::<State>($($arg),*),
             "c" => $f::<Command>($($arg),*),
             "b" => $f::<bool>($($arg),*),
+            "w" => $f::<Word>($($arg),*),
             _ => Err(NoImpl),
         }
     };
@@ -144,6 +145,7 @@ pub fn run(toks: &[&str], out: &mut Vec<String>) -> R<()> {
             let r: Option<String> = match ty {
                 "f" => arith_same!(f32, op, a, b),
                 "q" => arith_same!(Quantity, op, a, b),
+                "w" => arith_same!(Word, op, a, b),
                 "s" => arith_scaled!(State, op, a, b),
                 "c" => arith_scaled!(Command, op, a, b),
                 _ => return Err(NoImpl),
